@@ -90,9 +90,15 @@ func Tmpl(r *rand.Rand, base string) string {
 
 var relPaths = []string{"./data", "data", "d/e", "../up", ".", "./a/../b", "f.txt"}
 
+// oddPaths are values a resolution stage could misread: home-relative, remote-looking, Windows-looking.
+var oddPaths = []string{"~/h", "~u/x", "./~", "github.com/o/r", "./github.com/o", "https://e.x/y", "git@h:o/r", "C:\\d", "c:/d/e", "\\\\srv\\sh\\x", "./C:/d"}
+
 func RelPath(r *rand.Rand) string {
 	if r.Intn(12) == 0 {
 		return Root + "/abs/x"
+	}
+	if r.Intn(8) == 0 {
+		return oddPaths[r.Intn(len(oddPaths))]
 	}
 	return relPaths[r.Intn(len(relPaths))]
 }
